@@ -210,6 +210,16 @@ impl Check for C11 {
                 st.inc("reader_skipped_same_global_path_as_open_unknown_master");
                 continue;
             }
+            // More generally, whenever an unknown-size master of the trailing run has a placeholder in its own declared
+            // path, "sibling" and "ancestor" stop being one thing: an element that shares its enclosing masters but not
+            // its declared path may or may not be taken for a sibling (path equality versus "same parent"), and a
+            // placeholder-pathed ancestor id is both "a new instance of an ancestor" and "a global element, which never
+            // closes it". A reader may read the closing rule either way, so the reader is not judged on such chains
+            // (the writer is: it has no closing rule). Found by an independent review of this check (reviews/R3.md).
+            if (run_start..ids.len()).any(|i| c.spec.get(ids[i]).map_or(false, |d| d.has_global())) {
+                st.inc("reader_skipped_placeholder_pathed_unknown_master_in_trailing_run");
+                continue;
+            }
             // stream: chain[0] > chain[1] > ... > probe (a leaf with a small payload, or an empty master)
             let leaf = if ed.ty == Ty::Master { Node::master(*p, vec![]) } else { Node::leaf(*p, gen::gen_leaf_val(&mut pr, ed.ty, &gen::PayOpts { max_len: 6, boundary_pct: 0 })) };
             // sometimes a completed sibling subtree precedes the probe inside the innermost chain master: a
@@ -389,7 +399,7 @@ impl Check for C11 {
         vec![
             "no schedule or fault dimension is relevant to this property; the technique contributes the history/stream generator and the operation-by-operation refinement check against the reference matcher (spec.rs ref_match)",
             "reader probes need the first element of the stream to have a placeholder-free path (only then is the position in the document fixed, as C06 states); other chains are probed on the writer only",
-            "unknown size is used only on masters with placeholder-free declared paths",
+            "for reader probes the trailing run of unknown-size masters holds only masters with placeholder-free declared paths (other chains are probed on the writer only)",
         ]
     }
     fn expected_probes(&self) -> Vec<&'static str> {
